@@ -303,6 +303,39 @@ def helper_all_some(ctx, R, kind):
         if len(params) != arity:
             ctx.missing(R, key, "expected %d Option parameters, found %s" % (arity, params))
             continue
+        # evaluation first: for every operator and every combination of operand facts in which at least one is unknown
+        # the helper must return None (whatever its shape)
+        try:
+            import itertools
+
+            import passeval
+            from finfun import E as FE2, NONE as FNONE2, S as FS2, Unsupported as FUns2
+
+            w2 = passeval.PassWorld([EI, "program_structure/src/intermediate_representation/ir.rs", "program_structure/src/intermediate_representation/degree_meta.rs", "program_structure/src/intermediate_representation/value_meta.rs"], EI)
+            w2.lenient_opaque = True
+            w2.opaque = (("modular_arithmetic::", lambda name, args: ("K", name, tuple(args))),)
+            ops2 = w2.enums.get(ty) or []
+            nonparams2 = [i for i in fn["sig"]["inputs"] if not i.get("self")]
+            wrong2 = []
+            if not ops2:
+                raise FUns2("operators not found")
+            for op in ops2:
+                for combo in itertools.product((False, True), repeat=arity):
+                    if all(combo):
+                        continue
+                    it2 = iter(combo)
+                    args2 = []
+                    for i in nonparams2:
+                        if i["ty"].replace(" ", "").startswith("Option<"):
+                            args2.append(FS2("Some", ("O", "known")) if next(it2) else FNONE2)
+                        else:
+                            args2.append(("O", i["pat"].get("name", "arg")))
+                    if w2.call_fn(fn, [FE2(ty, op)] + args2) != FNONE2:
+                        wrong2.append("%s%s" % (op, combo))
+            ctx.check(R, key, not wrong2, "evaluated for %d operators x %d operand combinations; a fact is returned although an operand is unknown: %s" % (len(ops2), 2 ** arity - 1, wrong2[:6]), site(EI, fn))
+            continue
+        except (FUns2, passeval.Panic):
+            pass
         top = None
         for n in walk(fn["body"]):
             if n["k"] == "Match" and set(re.findall(r"\w+", render(n["scrut"]))) >= set(params):
